@@ -141,3 +141,69 @@ Proof.
   unfold finst_hinst. cbn [has_other]. induction (fi_conns fi) as [|c cs IHc]; [reflexivity|]. cbn [map existsb]. rewrite IHc. reflexivity.
 Qed.
 End FlatTree.
+
+(* ---------------------------------------------------------------------------------------------- composition *)
+Definition pkg_tree (p : package) (top : name) : result hmod :=
+  hm <- ofopt EMissing (find_pmodule (pk_mods p) top) ;; hmod_of_pkg p (pkg_fuel p) hm.
+
+Definition pkg_is_flat (p : package) (top : name) : bool :=
+  match find_pmodule (pk_mods p) top with Some hm => pm_is_flat hm | None => false end.
+
+(* the hierarchy read from the package has unique instance names per module and sub-module connections naming ports of the
+   sub-module (Spec/C16Flat.v:wf_hier - what wf_pkg says about the modules reachable from the top) *)
+Definition tree_wf (p : package) (top : name) : bool :=
+  match pkg_tree p top with Ok t => wf_hier t | Error _ => false end.
+
+(* x is a bit of a terminal of the hierarchy: of a port of the top module or of a connected port of a leaf device *)
+Definition term_bit (p : package) (top : name) (x : node) : Prop :=
+  match pkg_tree p top with Ok t => In (fst (cv x)) (C16Flat.terminals t) | Error _ => False end.
+
+Lemma cv_trn x : match x with NNc _ _ _ => False | _ => True end -> cv (trn x) = (tr (fst (cv x)), snd (cv x)).
+Proof. destruct x as [pth s k|pth i e port k|]; [reflexivity|reflexivity|tauto]. Qed.
+
+Theorem nets_preserved_pkg p top q pd qd :
+  wf_pkg prims_ext p = Ok tt -> tree_wf p top = true -> pkg_is_flat p top = false ->
+  flatten_pkg p top = Ok q -> wf_pkg prims_ext q = Ok tt ->
+  design_of_pkg prims_ext p top = Ok pd -> design_of_pkg prims_ext q (flat_top p top) = Ok qd ->
+  forall x y, valid pd x -> valid pd y -> term_bit p top x -> term_bit p top y -> valid qd (trn x) -> valid qd (trn y) ->
+    (same_net pd x y <-> same_net qd (trn x) (trn y)).
+Proof.
+  intros Hwfp Htw Hnf Hfl Hwfq Hpd Hqd x y Vx Vy Tx Ty Vx' Vy'.
+  unfold flatten_pkg in Hfl. unfold pkg_is_flat in Hnf. unfold tree_wf, pkg_tree in Htw. unfold term_bit, pkg_tree in Tx, Ty. unfold flat_top in Hqd.
+  destruct (find_pmodule (pk_mods p) top) as [hm|] eqn:Hfind; [|discriminate]. cbn [ofopt bind] in *. rewrite Hnf in Hfl, Hqd.
+  apply bind_ok in Hfl. destruct Hfl as [mports [Hmp Hfl]]. apply bind_ok in Hfl. destruct Hfl as [r [Hr Hfl]].
+  destruct (pwalk_ok_tree _ _ _ _ _ _ Hr) as [t Ht]. rewrite Ht in Htw, Tx, Ty.
+  pose proof (flatten_pkg_refines p top hm t Hfind Ht) as Href.
+  assert (flatten_pkg p top = Ok q) as Hfl'.
+  { unfold flatten_pkg. rewrite Hfind. cbn [ofopt bind]. rewrite Hnf, Hmp. cbn [bind]. rewrite Hr. cbn [bind]. exact Hfl. }
+  destruct (flatten t) as [[|f]|e] eqn:Eft.
+  - destruct Href as [_ Hf]. congruence.
+  - destruct Href as [nodes [Hq [_ [Ef [Hnodes [Hsigs _]]]]]]. rewrite Hfl' in Hq. inversion Hq; subst q; clear Hq.
+    assert (existsb has_other (h_body t) = false) as Hno.
+    { destruct (existsb has_other (h_body t)) eqn:E; [|reflexivity]. exfalso.
+      destruct (flatten_inv _ _ Eft) as [_ [_ [_ [_ [_ Hif]]]]].
+      destruct (flatten_rejects_other t Hif E) as [e He]. congruence. }
+    set (fm := flat_pmodule top hm (h_ports t) nodes) in *.
+    assert (pm_port_widths hm = Ok (h_ports t)) as Hpw.
+    { unfold pkg_fuel in Ht. destruct (hmod_of_pkg_inv _ _ _ _ Ht) as [body [ports [_ [Hp ->]]]]. exact Hp. }
+    assert (NoDup (map fst (pm_sigs fm))) as Hnd.
+    { pose proof Hwfq as H0. unfold wf_pkg in H0. apply bind_ok in H0. destruct H0 as [u1 [_ H1]]. apply bind_ok in H1. destruct H1 as [u2 [_ H2]].
+      cbn [one_module pk_mods wf_pmods] in H2. apply bind_ok in H2. destruct H2 as [u3 [H3 _]]. unfold wf_pmodule in H3.
+      apply bind_ok in H3. destruct H3 as [u4 [_ H4]]. apply bind_ok in H4. destruct H4 as [u5 [_ H5]]. apply bind_ok in H5. destruct H5 as [u6 [H6 _]].
+      destruct u6. apply check_ok in H6. apply nodup_names_NoDup. exact H6. }
+    pose proof (flat_tree p top hm t nodes Hnodes Hpw Hnd) as Hft. fold fm in Hft.
+    assert (find_pmodule (pk_mods (one_module p fm)) (flat_name_of top) = Some fm) as Hffind.
+    { cbn [one_module pk_mods find_pmodule]. change (pm_name fm) with (flat_name_of top). rewrite String.eqb_refl. reflexivity. }
+    pose proof (flat_no_other t nodes) as Hfno.
+    rewrite (bridge_same_net p top pd hm t Hwfp Hpd Hfind Ht Hno x y Vx Vy).
+    rewrite (bridge_same_net (one_module p fm) (flat_name_of top) qd fm _ Hwfq Hqd Hffind Hft Hfno (trn x) (trn y) Vx' Vy').
+    assert (forall z, valid pd z -> match z with NNc _ _ _ => False | _ => True end) as NN by (intros [| |]; cbn [valid]; tauto).
+    rewrite (cv_trn x (NN x Vx)), (cv_trn y (NN y Vy)).
+    destruct (cv x) as [a k] eqn:Ea. destruct (cv y) as [b k'] eqn:Eb. cbn [fst snd] in *.
+    change (hstep_bit t) with (fun nk : hnode * Z => (hstep t (fst nk), snd nk)).
+    change (hstep_bit (fmod_hmod (flat_fmod t nodes))) with (fun nk : hnode * Z => (hstep (fmod_hmod (flat_fmod t nodes)) (fst nk), snd nk)).
+    rewrite !conn_bits. rewrite <- Ef.
+    destruct (flatten_inv _ _ Eft) as [tn [cl [Hw [Hc [-> _]]]]].
+    rewrite (nets_preserved t tn cl Htw Hw Hc a b Tx Ty). reflexivity.
+  - congruence.
+Qed.
